@@ -123,7 +123,8 @@ def _replay(job):
             np.random.rand(7)
             np.random.normal(size=3)
         elif op in ("FCs", "FCu"):
-            fo = {"display": "off", "max_fun_evals": 60, "tol_fun": 1e-2, "uncertainty_handling": True}
+            fo = {"display": "off", "max_fun_evals": 60, "tol_fun": 1e-2, "uncertainty_handling": True,
+                  "n_search_iter": 3, "es_start": 0.5, "search_n_try": 2, "hedge_gamma": 0.3}
             if op == "FCs":
                 fo["random_seed"] = 555
             F = BADS(lambda x: float(np.sum(np.asarray(x) ** 2)) + 0.1 * float(np.random.normal()),
